@@ -48,7 +48,7 @@ class C12(Property):
         kind = rnd.choice(["avg", "sum", "sum"])
         step = rnd.choice([None, None, 0.0, 0.25, 0.5, 0.75, 1.0, round(rnd.random(), 3)])
         per_time = rnd.random() < 0.6
-        src_step = rnd.choice([[3600], [86400], [7200, 3600], [5, 7, 3], [86400, 43200, 3600], [10], [60, 61]])
+        src_step = rnd.choice([[3600], [86400], [7200, 3600], [5, 7, 3], [86400, 43200, 3600], [10], [60, 61], [129600], [90000, 200000]])
         base = src_step[0]
         cons_step = [max(1, int(f * base)) for f in rnd.choice([[0.25], [0.5], [1], [1.5], [2], [2.5], [3.3], [0.7], [0.4, 1.3], [2, 0.3], [7.0 / 3]])]
         total = rnd.choice([6, 10, 20]) * max(src_step)
@@ -193,6 +193,11 @@ class C12(Property):
                 red = fm.UNITS.Quantity(1.0, got.units).to_reduced_units().units
                 if red != got.units:
                     out.viol("units_not_reduced", f"per-time sum units {got.units} are not reduced ({red})", spec=spec)
+                    return
+                # 'multiplied by time and reduced': the label is the reduced form of units x s (mm/d x s -> mm), or a spelling that converts 1 to 1
+                want = (1.0 * fm.UNITS.Unit(u) * fm.UNITS.Unit("s")).to_reduced_units().units
+                if abs(float(fm.UNITS.Quantity(1.0, got.units).to(want).magnitude) - 1.0) > 1e-12:
+                    out.viol("units_label", f"per-time sum of data in {u!r} delivered in {got.units}, units x time reduced is {want}", spec=spec)
                     return
                 out.count("per_time_unit_checks")
             if kind == "avg":
